@@ -3,7 +3,7 @@ from common import COMMON_TB
 PROP = {
     "bin": "c06",
     "prop_file": "Properties/C06.v",
-    "model_files": ["Rank/TopN.v", "Rank/Paging.v", "Rank/Wand.v"],
+    "model_files": ["Rank/TopN.v", "Rank/Paging.v", "Rank/Wand.v", "Rank/WandUnionBase.v", "Rank/WandUnionProofs.v"],
     "level": "proof",
     "engine": "E4-ranking",
     "level_text": "Proof (partial where stated): TopNComputer (buffer of capacity 2*max(K,1), strict threshold test, truncation by select_nth_unstable_by, "
@@ -17,8 +17,11 @@ PROP = {
                   "(C06_threshold_monotone_refuted; harmless). Block-max WAND: block_wand_single_scorer (term queries) is modelled over posting lists with arbitrary block "
                   "boundaries and proved, for every collector with a non-decreasing threshold, to terminate within a linear fuel bound in exactly the state exhaustive scoring "
                   "reaches whenever block maxima are upper bounds (C06_wand_single_sound, C06_wand_single_terminates; C06_wand_needs_upper_bounds_refuted shows the hypothesis is "
-                  "needed). PARTIAL: block_wand for unions is transliterated (Rank/Wand.v Section Union) and tested against exhaustive scoring but its soundness theorem is not "
-                  "proved; block_wand_intersection is not modelled; both are covered end-to-end by the harness only. Metadata that is not an upper bound (F3: C06_blockmax_bound_refuted, "
+                  "needed). block_wand for unions of >= 2 term scorers (find_pivot_doc, block_max_was_too_low_advance_one_scorer, align_scorers, advance_all_scorers_on_pivot, "
+                  "restore_ordering) is modelled and proved sound and terminating under the same hypotheses plus max_score >= every block max "
+                  "(C06_wand_union_sound, C06_wand_union_terminates in Rank/WandUnionBase.v / WandUnionProofs.v; C06_wand_union_needs_max_score_bound_refuted shows the extra hypothesis "
+                  "is needed). PARTIAL: block_wand_intersection is NOT modelled; it is covered end-to-end only (including every 4..6-term conjunction over large skewed corpora, "
+                  "which exercises its suffix-sum pruning bound with >= 3 secondary terms). Metadata that is not an upper bound (F3: C06_blockmax_bound_refuted, "
                   "F6: C06_max_score_bound_refuted, exact rationals over the regenerated BM25 constants) is classified, witnessed and reproduced on the implementation. "
                   "Multi-clause float sums are compared with the documented tolerance (partial).",
     "level_note": "Trusted: Coq kernel + vm_compute; pin.py; harness; std select_nth_unstable_by / sort_unstable_by and BinaryHeap only through their contracts "
@@ -28,7 +31,9 @@ PROP = {
     "rule": "cases: (a) TopNComputer push sequences (ascending docs, Option keys, 4 comparators, K in {0,1,2,n-1,n,n+1,...}, lengths around 2K capacity crossings; "
             "non-trivial = at least one truncation or a tie at the boundary); (b) end-to-end TopDocs (score / fast field asc,desc u64,i64,f64,date,string / tweak_score) "
             "over generated indexes with 1-4 segments, deletes, posting lists crossing 128-doc blocks, single/union/intersection/boolean-tree queries, 1 and 3 search threads "
-            "(non-trivial = more matches than K+O or >= 2 segments); paging sweeps; distinct by hash of the Gallina term",
+            "(non-trivial = more matches than K+O or >= 2 segments); paging sweeps; (b2) every conjunction of 4-6 Must term clauses out of 8 terms of document frequency 25%..97% with "
+            "heavy-tailed term frequencies over single-segment corpora of 2600-4500 documents (with and without deletes), K in {1,2,3,5}, vs the exhaustive oracle; "
+            "distinct by hash of the Gallina term",
     "trusted_base": COMMON_TB + ["std::slice::select_nth_unstable_by / sort_unstable_by: contracts as Section hypotheses (two concrete instances proved to meet them)",
                                  "f32 addition is not modelled: exact scores in theorems, tolerance 1e-5 relative for multi-clause sums in the end-to-end comparison"],
     "assumptions": ["keys are exactly comparable (no NaN; -0.0 not generated)", "the exhaustive (doc, key) oracle is the same searcher's non-pruning custom collector"],
